@@ -18,12 +18,19 @@ type State struct {
 	reach *Term
 	cells map[*ssa.Alloc]Val
 	heap  *Heap
+	iters map[*ssa.Range]*Term // byte position of string range iterators
 }
 
 func (s *State) clone() *State {
 	n := &State{reach: s.reach, cells: make(map[*ssa.Alloc]Val, len(s.cells)), heap: s.heap.clone()}
 	for k, v := range s.cells {
 		n.cells[k] = v
+	}
+	if len(s.iters) > 0 {
+		n.iters = make(map[*ssa.Range]*Term, len(s.iters))
+		for k, v := range s.iters {
+			n.iters[k] = v
+		}
 	}
 	return n
 }
@@ -95,6 +102,7 @@ type deferEntry struct {
 type retRec struct {
 	st   *State
 	vals []Val
+	caps map[string]*capRec // call-site captures as recorded when this return was reached
 }
 
 type capRec struct {
@@ -132,6 +140,7 @@ type Frame struct {
 	exitStates map[*ssa.BasicBlock][]*State
 	exitSrc    map[*ssa.BasicBlock][]*ssa.BasicBlock
 	logical    map[*types.Var]Val
+	capsOverride map[string]*capRec
 }
 
 type loopInfo struct {
@@ -481,6 +490,30 @@ func (ex *Exec) mergeStates(ins []*State) *State {
 		}
 		out.cells[a] = v
 	}
+	// string iterator positions
+	for _, s := range ins {
+		for r := range s.iters {
+			if out.iters == nil {
+				out.iters = map[*ssa.Range]*Term{}
+			}
+			if _, done := out.iters[r]; done {
+				continue
+			}
+			var v *Term
+			for i := len(ins) - 1; i >= 0; i-- {
+				x, ok := ins[i].iters[r]
+				if !ok {
+					continue
+				}
+				if v == nil {
+					v = x
+				} else {
+					v = Ite(ins[i].reach, x, v)
+				}
+			}
+			out.iters[r] = v
+		}
+	}
 	// heap
 	sameEpoch := true
 	for _, s := range ins[1:] {
@@ -695,7 +728,11 @@ func (ex *Exec) execBlock(fr *Frame, b *ssa.BasicBlock, st *State, ins []*State,
 			for _, r := range x.Results {
 				vals = append(vals, ex.operand(fr, r))
 			}
-			fr.rets = append(fr.rets, retRec{st: st, vals: vals})
+			caps := make(map[string]*capRec, len(fr.captures))
+			for k, v := range fr.captures {
+				caps[k] = v
+			}
+			fr.rets = append(fr.rets, retRec{st: st, vals: vals, caps: caps})
 		case *ssa.Panic:
 			if fr.topFrame().con != nil && fr.topFrame().con.NoPanic && ex.spec == 0 {
 				ex.oblige(fr, st, "panic", ex.srcText(x.Pos(), "panic"), False(), x.Pos(), "explicit panic is unreachable")
